@@ -483,10 +483,15 @@ impl TryFrom<Option<&SubtypeElements>> for PerVisibleRangeConstraints {
             },
             Some(SubtypeElements::ContainedSubtype {
                 subtype,
-                extensible: _,
+                extensible,
             }) => {
                 let is_integer = matches!(subtype, ASN1Type::Integer(_));
-                let contained = per_visible_range_constraints(is_integer, subtype.constraints())?;
+                let mut contained =
+                    per_visible_range_constraints(is_integer, subtype.constraints())?;
+                // `(INCLUDES T, ...)`: the marker behind the contained subtype
+                if *extensible {
+                    contained.extensible = true;
+                }
                 // only a SIZE constraint of a contained non-INTEGER type is a range constraint
                 Ok(if is_integer || contained.is_size_constraint {
                     contained
